@@ -69,7 +69,7 @@ theorem hint_bit_pack_is_HintBitPack (m : Mode) (omega : Int) (h : List Poly) (k
     hintBitPack m false omega h (omega.toNat + k) = .ok (Spec.hintBitPack omega.toNat h) :=
   hintBitPack_is_algorithm_20 m omega h k ho hk hok hb hsum
 
-theorem hint_bit_unpack_is_HintBitUnpack' (m : Mode) (k : Nat) (omega : Int) (y : List Nat) (hy : ∀ b ∈ y, b < 256)
+theorem hint_bit_unpack_is_algorithm_21 (m : Mode) (k : Nat) (omega : Int) (y : List Nat) (hy : ∀ b ∈ y, b < 256)
     (ho : 0 ≤ omega) (hk : 1 ≤ omega.toNat + k ∧ omega.toNat + k < 256) (hlen : y.length = omega.toNat + k) :
     hintBitUnpack m k omega y = .ok (Spec.hintBitUnpack omega.toNat k y) :=
   hintBitUnpack_is_algorithm_21 m k omega y hy ho hk hlen
@@ -80,7 +80,7 @@ theorem sig_encode_is_sigEncode (m : Mode) (p : ParamSet) (blz : Nat) (cfg : Sig
     sigEncode m false p ct z h = .ok (Spec.sigEncode blz p.gamma1 p.omega.toNat ct z h) :=
   sigEncode_is_algorithm_26 m p blz cfg ct z h hct hz hzr hh hb hsum
 
-theorem sig_decode_is_sigDecode' (m : Mode) (p : ParamSet) (blz : Nat) (cfg : SigCfg p blz) (sigma : List Nat) (hb : ∀ x ∈ sigma, x < 256)
+theorem sig_decode_is_algorithm_27 (m : Mode) (p : ParamSet) (blz : Nat) (cfg : SigCfg p blz) (sigma : List Nat) (hb : ∀ x ∈ sigma, x < 256)
     (hlen : sigma.length = p.sigLen) :
     sigDecode m p sigma = .ok (
       let d := Spec.sigDecode p.lambdaDiv4 p.l p.k p.omega.toNat blz p.gamma1 sigma
